@@ -48,6 +48,12 @@ def run(chk, repo, tier):
     chk.explanation = ("Aggregate/_AggregatePKs are summarised as folds over a symbolic sequence and compared with the "
                        "specification's fold; length, non-emptiness, distinctness and zip-equality gates are checked on the "
                        "facts holding at the sinks; the aggregate verification equation is evaluated in the formal bilinear domain.")
+    chk.rule("C03.R8", "the sum is the group sum and the identity aggregate is admitted: the optimized BLS12-381 group law (C07.R2) and "
+                       "subgroup_check = is_inf([r]P) (C17.R1) re-stated", 10)
+    from . import C07 as _dep_C07, C17 as _dep_C17
+    from ..report import restate as _restate
+    _restate(chk, "C03.R8", _dep_C07, repo, lambda r, c: r == "C07.R2" and "optimized_bls12_381" in c)
+    _restate(chk, "C03.R8", _dep_C17, repo, lambda r, c: r == "C17.R1")
     chk.rule("C03.R1", "Aggregate/_AggregatePKs return encode(identity + Σ decode(s)) over the whole input", 4)
     chk.rule("C03.R2", "Aggregate refuses the empty list (exactly) and mis-sized entries with ValidationError", 3)
     chk.rule("C03.R3", "every zip of caller sequences is dominated by a length-equality gate", 2)
